@@ -4,6 +4,7 @@
 From Coq Require Import NArith List Bool Sorting.Sorted.
 Import ListNotations.
 Require Import UV.C06.Model UV.C06.MergeProofs UV.C06.Proofs UV.C06.FmtProofs.
+Require Import UV.C06.Sched UV.C06.SchedProofs.
 Local Open Scope N_scope.
 
 (* ---- the k-way merge ---- *)
@@ -173,3 +174,44 @@ Theorem C06_time_format_truncates : forall d, 0 < d -> d < 3600000000000000 ->
   fmt_lo (fmt_time d) <= d /\ d < fmt_lo (fmt_time d) + fmt_step (fmt_time d).
 Proof. exact fmt_time_truncates. Qed.
 Print Assumptions C06_time_format_truncates.
+
+(* perf context-switch events (perf-cpuN.dat) merged with the user records; a sched-out / sched-in pair is a virtual call
+   working on the top of the task's stack.  With the tie rule of the (fixed) code - a sched-in before, a sched-out after the
+   records of the same timestamp - the user calls keep the durations and nesting they have without the events on the tie
+   witnesses; PARTIAL: for generated data this is checked per case by ok_sched on the real output, not proved in general *)
+Theorem C06_sched_tie_rule_ok_partial :
+  ok_with tie_sched_in_first w_out_at_exit = true /\ ok_with tie_sched_in_first w_in_at_exit = true /\
+  ok_with tie_sched_in_first w_in_at_entry = true.
+Proof. exact sched_in_first_ok. Qed.
+Print Assumptions C06_sched_tie_rule_ok_partial.
+
+(* `perf->time <= min_timestamp`: refuted (a sched-out at the time of an EXIT: the call is shown with duration 0) *)
+Theorem C06_sched_perf_first_refuted : ok_with tie_perf_first w_out_at_exit = false.
+Proof. exact perf_first_refuted. Qed.
+Print Assumptions C06_sched_perf_first_refuted.
+
+(* the code as found (user record always first): refuted for a sched-in at the time of an EXIT / ENTRY of its task *)
+Theorem C06_sched_user_first_legacy_refuted :
+  ok_with tie_user_first w_in_at_exit = false /\ ok_with tie_user_first w_in_at_entry = false /\
+  ok_with tie_user_first w_out_at_exit = true.
+Proof. exact user_first_legacy_refuted. Qed.
+Print Assumptions C06_sched_user_first_legacy_refuted.
+
+(* the perf extension is conservative: without perf events it is the --no-merge view of the base model, whatever the tie rule *)
+Theorem C06_sched_conservative : forall wins forks sel f tasks,
+  replay_x wins forks sel f tasks [] = map XL (fst (replay forks (mkvariant false sel f None false) tasks)).
+Proof. exact replay_x_no_perf. Qed.
+Print Assumptions C06_sched_conservative.
+
+(* a task (set up, not waiting for a re-synchronisation) switched out at a and in at b: stack count, display depth and user
+   stack count are restored, every frame below the top is untouched - the open calls keep their start times, so their
+   durations are exit - entry as without the pair - and the slot the sched-in line shows holds b - a *)
+Theorem C06_sched_pair_neutral : forall inh ts i a b k,
+  t_set ts = true -> t_lost ts = false -> k <> 1 -> a <= b -> b < W64 ->
+  let ts1 := consume_p inh ts (dummy (mkpev a i k)) in
+  let ts2 := consume_p inh ts1 (dummy (mkpev b i 1)) in
+  t_sc ts2 = t_sc ts /\ t_dd ts2 = t_dd ts /\ t_usc ts2 = t_usc ts /\ t_set ts2 = true /\ t_lost ts2 = false /\
+  (forall j, j < t_sc ts -> fget (t_stack ts2) j = fget (t_stack ts) j) /\
+  f_time (fget (t_stack ts2) (t_sc ts2)) = b - a.
+Proof. exact sched_pair_neutral. Qed.
+Print Assumptions C06_sched_pair_neutral.
